@@ -641,7 +641,8 @@ def _strip_fn(name):
             raise Unsupported('.%s() on %r' % (name, val))
         if val.pyval is not None and all(isinstance(a, ZV) and a.pyval is not None for a in args):
             return zstr(getattr(val.pyval, name)(*[a.pyval for a in args]))
-        key = name + ''.join('_%s' % ''.join('%02x' % ord(c) for c in a.pyval) for a in args if isinstance(a, ZV) and a.pyval is not None)
+        # the argument of strip/rstrip/lstrip is a SET of characters: its order and repetitions do not matter
+        key = name + ''.join('_%s' % ''.join('%02x' % ord(c) for c in sorted(set(a.pyval))) for a in args if isinstance(a, ZV) and a.pyval is not None)
         if key not in _strip_fns:
             _strip_fns[key] = z3.Function('s_' + key, T.Str, T.Str)
         return ZV(TStr, _strip_fns[key](val.term))
